@@ -153,7 +153,8 @@ class TableProxy:
 
     def _note(self, what):
         tid = self._ctrl.tid()
-        self._log.append((what, tid, self._lock.owner == tid and tid is not None))
+        # the raw table and the lock it is accessed under: one table must be guarded by ONE lock
+        self._log.append((what, tid, self._lock.owner == tid and tid is not None, id(self._t), self._lock.name))
 
     def __contains__(self, k):
         self._note('in')
@@ -255,7 +256,8 @@ def _run_schedule(desc, plans, schedule, roots, gated_keys=False):
                 c = getattr(n.edge, attr, None)
                 if isinstance(c, MemoryCache) and not isinstance(c._lock, LockProxy):
                     c._lock = LockProxy(ctrl, f'L{len(LockProxy.registry)}')
-                    c._cache = TableProxy(c._cache, c._lock, log, ctrl)
+                    raw = c._cache._t if isinstance(c._cache, TableProxy) else c._cache      # a table shared by several caches
+                    c._cache = TableProxy(raw, c._lock, log, ctrl)
             stack.extend(n.parents)
     # gate user functions: wrap world's call log append
     real_log = world.log
@@ -344,7 +346,14 @@ def check_one(desc, plans, schedule, gated_keys=False):
                                 f'a sequential execution computes {r["seq_hash"][:100]}: an evaluation received the node hash of another computation')
             elif r['ok'] != w:
                 problems.append(f'thread {tid}: {call[0]}({call[1]!r}) returned {r["ok"][:120]}, every sequential execution returns {w[:120]}')
-    unlocked = [(what, tid) for what, tid, held in log if not held and tid is not None]
+    unlocked = [(what, tid) for what, tid, held, _, _ in log if not held and tid is not None]
+    guards = {}
+    for what, tid, held, table, lock in log:
+        guards.setdefault(table, set()).add(lock)
+    split = [sorted(ls) for ls in guards.values() if len(ls) > 1]
+    if split:
+        problems.append(f'one memory cache table is read and written under different locks {split[0]}: holding one of them does not '
+                        f'exclude a concurrent access under the other, the table is not guarded by its lock')
     if unlocked:
         problems.append(f'the memory cache table was accessed without holding its lock: {unlocked[:3]} ({len(unlocked)} accesses)')
     return problems, len(trace)
